@@ -33,7 +33,7 @@ EVAL = ['cmp_ref_enc', 'cmp_roundtrip', 'cmp_split_rand', 'cmp_flip_rand', 'cmp_
         'cmp_trunc_ignores_rest', 'cmp_ccm_reset', 'cmp_ccm_declared', 'cmp_ccm_after_refusal',
         'cmp_edge_wrap', 'cmp_edge_long', 'cmp_gcm_length_block']
 DISTINCT = ['impl_residue']
-REQUIRED = ['cmp_ref_enc', 'cmp_roundtrip', 'cmp_split_rand', 'cmp_flip_rand', 'cmp_split2_aad',
+REQUIRED = ['cmp_ref_enc', 'run_calls_with_other_nonzero_encrypt_flag', 'cmp_roundtrip', 'cmp_split_rand', 'cmp_flip_rand', 'cmp_split2_aad',
             'cmp_split2_msg_enc', 'cmp_split2_msg_dec', 'cmp_flip', 'flips_nonce', 'flips_aad',
             'flips_ct', 'flips_tag', 'cmp_trunc_ignores_rest', 'cmp_ccm_reset',
             'ccm_reset_expected_accept', 'ccm_reset_expected_refuse', 'cmp_ccm_declared',
